@@ -1,7 +1,7 @@
 (* PV.C15.Examples — non-vacuity: concrete, non-trivial reachable states meeting the hypotheses of the
    theorems of Properties.v (all computed by running the executable model). *)
 From Coq Require Import List Bool Arith PeanoNat Lia.
-From PV Require Import C15.Model C15.Proofs C15.PathModel C15.PathProofs C15.PathProgress C15.Upgrade C15.Refuted.
+From PV Require Import C15.Model C15.Proofs C15.PathModel C15.PathProofs C15.PathProgress C15.TwoPaths C15.Upgrade C15.Refuted.
 Import ListNotations.
 Local Open Scope nat_scope.
 
@@ -157,4 +157,25 @@ Proof.
   - eapply (g1_run_reachable init [(0, APush sh_rr); (0, AGo); (1, APush sh_rr); (1, AGo); (0, APush ex_rr); (0, AGo)]);
       [constructor|vm_compute; reflexivity|vm_compute; reflexivity].
   - repeat split; vm_compute; reflexivity.
+Qed.
+
+(* ---- two paths: thread 0 (process 0) nests an exclusive lock on path 1 inside a shared lock on path 0; thread 1
+   (process 1) asks for path 1 shared, non-blocking, while process 0 holds it exclusively: it is refused at the process level
+   and unwinds through all pools; then everybody leaves.  Hypotheses of two_paths_quiescent_empty (and a non-trivial history). *)
+Fixpoint gos2 (i : bool) (t : tid) (n : nat) : list label2 := match n with 0 => [] | S k => (i, (t, PGo)) :: gos2 i t k end.
+Definition sched2 : list label2 :=
+  (false, (0, PPush true true false)) :: gos2 false 0 6 ++ (true, (0, PPush false true false)) :: gos2 true 0 6 ++
+  (true, (1, PPush true false false)) :: gos2 true 1 6.
+Definition sched2_rest : list label2 := gos2 true 0 5 ++ gos2 false 0 6 ++ gos2 true 1 4.
+
+Example two_paths_quiescent_nonvacuous :
+  exists s1 s2,
+    run2 idp init2 sched2 = Some s1 /\ ord s1 0 = [true; false] /\ getk (comp1 s1) 0 = KEx /\ getk (comp0 s1) 0 = KSh /\
+    map f_pc (gets (comp1 s1) 1) = [PXPLPool (Some PProcWouldBlock)] /\
+    run2 idp s1 sched2_rest = Some s2 /\ reachable2 idp s2 /\ (forall t, ord s2 t = []).
+Proof.
+  eexists. eexists. split; [vm_compute; reflexivity|]. do 4 (split; [vm_compute; reflexivity|]).
+  split; [vm_compute; reflexivity|]. split.
+  - eapply (run2_reachable idp init2 (sched2 ++ sched2_rest)); [apply r2_init|vm_compute; reflexivity].
+  - intros t. destruct t as [|[|t]]; vm_compute; try reflexivity. destruct t; reflexivity.
 Qed.
